@@ -1,7 +1,9 @@
 package main
 
 import (
+	"fmt"
 	"go/ast"
+	"go/token"
 	"go/types"
 	"sort"
 	"strings"
@@ -227,4 +229,116 @@ func (a *Atom) ArgSig() string {
 	_ = at
 	sort.Strings(parts)
 	return strings.Join(parts, " ; ")
+}
+
+// ---------- G8: loop-carried flags ----------
+
+// checkLoopFlags: a guard outside a loop that tests a flag-like variable whose reaching definition
+// lies inside that loop and neither accumulates (x = x && ..., x &= ..., append(x, ...)), nor is
+// constant, nor is itself tested inside the loop, only sees the last iteration.
+func checkLoopFlags(r *Run, rule string, scope Scope) {
+	r.Rule(rule, "no last-iteration-only flags: a guard placed after a loop never tests a flag that each iteration overwrites (instead of accumulating) without testing it inside the loop")
+	n := 0
+	for _, fd := range r.Prog.FuncsIn(scope) {
+		for _, u := range r.G.unitsOf(fd) {
+			for _, a := range u.Atoms {
+				if a.Unit != u || a.Leaf == nil {
+					continue
+				}
+				ast.Inspect(a.Leaf, func(x ast.Node) bool {
+					id, ok := x.(*ast.Ident)
+					if !ok {
+						return true
+					}
+					v, ok := u.Info.Uses[id].(*types.Var)
+					if !ok || v.IsField() || !flagLike(v.Type()) {
+						return true
+					}
+					for _, d := range u.reachingDefs(v, a.Leaf) {
+						loop := enclosingLoop(u.Body, d.node)
+						if loop == nil || (loop.Pos() <= a.Leaf.Pos() && a.Leaf.End() <= loop.End()) {
+							continue
+						}
+						n++
+						if d.rhs == nil || mentionsVar(u.Info, d.rhs, v) {
+							continue
+						}
+						if tv, ok := u.Info.Types[d.rhs]; ok && tv.Value != nil {
+							continue
+						}
+						if as, ok := d.node.(*ast.AssignStmt); ok && as.Tok != token.ASSIGN && as.Tok != token.DEFINE {
+							continue
+						}
+						// tested inside the loop after the definition?
+						tested := false
+						for _, o := range u.Atoms {
+							if o.Unit == u && o.Leaf != nil && o.Leaf.Pos() > d.node.Pos() && o.Leaf.End() <= loop.End() && mentionsVar(u.Info, o.Leaf, v) {
+								tested = true
+							}
+						}
+						// a `break`/`return` right after the definition inside the loop also makes the last value the relevant one
+						if tested || loopExitsAfter(loop, d.node) {
+							continue
+						}
+						r.Fail(rule, FuncKey(fd.Obj)+" :: "+v.Name(), r.Prog.RelPos(d.node.Pos()), "flag `"+v.Name()+"` is overwritten in every iteration and only tested after the loop: only the last iteration is checked")
+					}
+					return true
+				})
+			}
+		}
+	}
+	r.Analysed[rule+" loop-defined flags"] = n
+	r.Pass(rule, "all-flags", "", fmt.Sprintf("%d loop-defined flag uses inspected", n))
+}
+
+func enclosingLoop(body *ast.BlockStmt, n ast.Node) ast.Node {
+	var best ast.Node
+	ast.Inspect(body, func(x ast.Node) bool {
+		switch x.(type) {
+		case *ast.ForStmt, *ast.RangeStmt:
+			if x.Pos() <= n.Pos() && n.End() <= x.End() {
+				best = x
+			}
+		}
+		return true
+	})
+	return best
+}
+
+func mentionsVar(info *types.Info, e ast.Node, v *types.Var) bool {
+	res := false
+	ast.Inspect(e, func(x ast.Node) bool {
+		if id, ok := x.(*ast.Ident); ok && info.Uses[id] == v {
+			res = true
+		}
+		return true
+	})
+	return res
+}
+
+// loopExitsAfter: the statement list containing def continues with a break/return (directly or in an if testing anything).
+func loopExitsAfter(loop ast.Node, def ast.Node) bool {
+	res := false
+	ast.Inspect(loop, func(n ast.Node) bool {
+		bs, ok := n.(*ast.BlockStmt)
+		if !ok {
+			return true
+		}
+		for i, s := range bs.List {
+			if s.Pos() <= def.Pos() && def.End() <= s.End() {
+				for _, t := range bs.List[i+1:] {
+					switch x := t.(type) {
+					case *ast.BranchStmt:
+						if x.Tok == token.BREAK {
+							res = true
+						}
+					case *ast.ReturnStmt:
+						res = true
+					}
+				}
+			}
+		}
+		return true
+	})
+	return res
 }
